@@ -136,6 +136,9 @@ type Config struct {
 	// point only at sites known to touch a location that two threads access with at least one
 	// write (learned across executions; the exploration restarts when the set grows).
 	AllPoints bool
+	// GateOnly: shared reads/writes are never choice points (still race-checked); only
+	// synchronisation operations, spawns and explicit Yield points are.
+	GateOnly bool
 	// Deadline stops the exploration (reported as not exhaustive).
 	Deadline time.Time
 }
@@ -207,9 +210,20 @@ func onPoint(kind int, addr any, site string) {
 		x.apply(t, op)
 		return
 	case vshim.KRead, vshim.KWrite:
-		if !x.cfg.AllPoints && !relevantSites[site] {
+		if x.cfg.GateOnly || (!x.cfg.AllPoints && !relevantSites[site]) {
 			x.apply(t, op)
 			return
+		}
+	case vshim.KLock, vshim.KRLock:
+		// a mutex that only one thread ever touches is not a choice point; the site becomes
+		// relevant as soon as two threads are seen on one mutex (then the exploration restarts)
+		x.note(op.addr, t.ID, true, site)
+		if !x.cfg.AllPoints && !relevantSites[site] {
+			free := x.wheld[op.addr] == 0 && (kind == vshim.KRLock || len(x.rheld[op.addr]) == 0)
+			if free {
+				x.apply(t, op)
+				return
+			}
 		}
 	}
 	t.pend = op
